@@ -300,7 +300,84 @@ def _bidx(shape, nd):
     return f
 
 
+def _ew_masked(f, operands, dtype=None):
+    """elementwise operation with boolean-mask selections a[m] among the operands: all selections must select the same
+    rows (same length n, masks equal at every row: side obligation `mask-match` unless it is the same mask term); other
+    operands broadcast against the trailing dims only.  The result is the selection (by the same mask) of the elementwise
+    result on the full arrays."""
+    ms = [o for o in operands if isinstance(o, Masked)]
+    m0 = ms[0]
+    for m in ms[1:]:
+        require_dim_eq(m0.n, m.n, "mask-length")
+        t = sv.fresh_int("mm")
+        a, b = m0.mask(t), m.mask(t)
+        same = (a is b) or (isinstance(a, SV) and isinstance(b, SV) and a.t.eq(b.t)) or (is_conc(a) and is_conc(b) and a == b)
+        if not same:
+            cur().require(sv.implies(sv.and_(sv.cmp(">=", t, 0), sv.cmp("<", t, m0.n)), sv.cmp("==", a, b)), "mask-match")
+    parts = []
+    for o in operands:
+        if isinstance(o, Masked):
+            parts.append((tuple(o.rest), o.src, o.dtype, True))
+        else:
+            shp, rd, dt = as_operand(o)
+            parts.append((tuple(shp), rd, dt, False))
+    rest = broadcast_shapes([p[0] for p in parts]) if any(p[0] for p in parts) else ()
+    nd = len(rest)
+    maps = [_bidx(p[0], nd) for p in parts]
+    dt = dtype or promote(*[p[2] for p in parts])
+
+    def src(idx):
+        t, r = idx[0], tuple(idx[1:])
+        vals = []
+        for (shp, rd, _, masked), mp in zip(parts, maps):
+            vals.append(rd((t,) + mp(r)) if masked else rd(mp(r)))
+        return f(*vals)
+    return Masked(_memo(src), m0.n, m0.mask, tuple(rest), dt)
+
+
+def masked_getitem(a, key):
+    """a[m][:, None] / a[m][:, k]: indexing of the trailing dims of a selection (leading axis kept whole)"""
+    if not isinstance(key, tuple):
+        key = (key,)
+    if not key or not (isinstance(key[0], slice) and key[0] == slice(None)):
+        raise EngineError("indexing the row axis of a masked selection")
+    new_rest = []
+    plan = []      # per new trailing position: ('new',) | ('keep', old axis) ; fixed old axes in `fixed`
+    fixed = {}
+    ax = 0
+    for k in key[1:]:
+        if k is None:
+            plan.append(("new",))
+            new_rest.append(1)
+        elif isinstance(k, slice) and k == slice(None):
+            plan.append(("keep", ax))
+            new_rest.append(a.rest[ax])
+            ax += 1
+        elif sv.is_scalar(k):
+            fixed[ax] = _norm_index(k, a.rest[ax])
+            ax += 1
+        else:
+            raise EngineError("index into a masked selection")
+    while ax < len(a.rest):
+        plan.append(("keep", ax))
+        new_rest.append(a.rest[ax])
+        ax += 1
+    src0, nold = a.src, len(a.rest)
+
+    def src(idx):
+        old = [None] * nold
+        for pos, pl in enumerate(plan):
+            if pl[0] == "keep":
+                old[pl[1]] = idx[1 + pos]
+        for k, v in fixed.items():
+            old[k] = v
+        return src0((idx[0],) + tuple(old))
+    return Masked(src, a.n, a.mask, tuple(new_rest), a.dtype)
+
+
 def ew(f, *operands, dtype=None):
+    if any(isinstance(o, Masked) for o in operands):
+        return _ew_masked(f, operands, dtype)
     ops = [as_operand(o) for o in operands]
     if all(o[0] == () for o in ops) and not any(isinstance(o, Arr) for o in operands):
         return f(*[o[1](()) for o in ops])
@@ -325,7 +402,8 @@ def binop(op, a, b):
     if op == "-":
         return ew(sv.sub, a, b)
     if op == "*":
-        da, db = as_operand(a)[2], as_operand(b)[2]
+        da = a.dtype if isinstance(a, Masked) else as_operand(a)[2]
+        db = b.dtype if isinstance(b, Masked) else as_operand(b)[2]
         if da == "bool" and db == "bool":
             return ew(sv.and_, a, b, dtype="bool")
         return ew(sv.mul, a, b)
@@ -478,7 +556,7 @@ def _expand_key(key, nd):
 
 def getitem(a, key):
     if isinstance(a, Masked):
-        raise EngineError("indexing a masked selection")
+        return masked_getitem(a, key)
     shape = a.shape
     # boolean mask (whole-array or leading-axis)
     if isinstance(key, Arr) and key.dtype == "bool":
@@ -644,11 +722,22 @@ def setitem(a, key, value, aug=None):
                 v = v.get(())
             else:
                 raise EngineError("setting an array element with a sequence")
-        if aug:
-            v = scalar_binop(aug, old(bidx), v)
-        v = _cast(v, a.dtype) if a.dtype in ("float", "int", "complex", "bool") else v
         if isinstance(v, Cx) and a.dtype == "float":
             raise EngineError("complex stored into float array")
+        dt_ = a.dtype
+        if aug:
+            # a[k] op= v: the new element is old[k] op v; written as old[idx] op v under the guard idx == k (the same value),
+            # so that loop summaries see the increment relative to the element's own previous content
+            rhs = v
+
+            def fn(idx, old=old, bidx=bidx, rhs=rhs):
+                def nv():
+                    x = scalar_binop(aug, old(idx), rhs)
+                    return _cast(x, dt_) if dt_ in ("float", "int", "complex", "bool") else x
+                return ite(_idx_eq(idx, bidx), nv, lambda: old(idx))
+            _replace(a.sid, fn)
+            return
+        v = _cast(v, a.dtype) if a.dtype in ("float", "int", "complex", "bool") else v
 
         def fn(idx, old=old, bidx=bidx, v=v):
             return ite(_idx_eq(idx, bidx), v, lambda: old(idx))
@@ -789,12 +878,38 @@ def _axis_len_sum(n, f):
     return Sum(0, n, f)
 
 
+def _masked_conv(v):
+    if isinstance(v, SV) and v.is_bool:
+        return sv.wrap(sv.znum(v))
+    if isinstance(v, bool):
+        return int(v)
+    return v
+
+
 def reduce_sum(a, axis=None):
     if isinstance(a, Masked):
-        if a.rest != () or axis not in (None, 0):
-            raise EngineError("masked sum with trailing dims")
-        src, mask = a.src, a.mask
-        return Sum(0, a.n, lambda t: ite(mask(t), lambda: src((t,)), 0))
+        src, mask, rest = a.src, a.mask, tuple(a.rest)
+        dt = "int" if a.dtype == "bool" else a.dtype
+        if axis is not None:
+            axis = int(axis) % (1 + len(rest))
+        if axis is None:
+            def total(t, prefix, k):
+                if k == len(rest):
+                    return _masked_conv(src((t,) + tuple(prefix)))
+                return Sum(0, rest[k], lambda u: total(t, prefix + [u], k + 1))
+            return Sum(0, a.n, lambda t: ite(mask(t), lambda: total(t, [], 0), 0))
+        if axis == 0:
+            def fn0(idx):
+                return Sum(0, a.n, lambda t: ite(mask(t), lambda: _masked_conv(src((t,) + tuple(idx))), 0))
+            return fn0(()) if rest == () else new_arr(rest, fn0, dt)
+        k = axis - 1
+        new_rest = rest[:k] + rest[k + 1:]
+        nk = rest[k]
+
+        def srck(idx):
+            t, r = idx[0], tuple(idx[1:])
+            return Sum(0, nk, lambda u: _masked_conv(src((t,) + r[:k] + (u,) + r[k:])))
+        return Masked(_memo(srck), a.n, mask, new_rest, dt)
     if not isinstance(a, Arr):
         a = from_nested(a)
     r = a.reader()
@@ -859,7 +974,16 @@ def count_elems(a):
 
 def reduce_mean(a, axis=None):
     if isinstance(a, Masked):
-        return sv.div(reduce_sum(a), a.count())
+        if axis is None:
+            cnt = a.count()
+            for dd in a.rest:
+                cnt = sv.mul(cnt, dd)
+            return sv.div(reduce_sum(a), cnt)
+        ax = int(axis) % (1 + len(a.rest))
+        s_ = reduce_sum(a, ax)
+        if ax == 0:
+            return binop("/", s_, a.count()) if isinstance(s_, Arr) else sv.div(s_, a.count())
+        return _ew_masked(lambda x, y: sv.div(x, y), [s_, a.rest[ax - 1]], dtype="float")
     if not isinstance(a, Arr):
         a = from_nested(a)
     s = reduce_sum(a, axis)
